@@ -119,6 +119,24 @@ def scenarios(draw):
         by_chr[g["chr"]].append(t)
         for e in t["exons"]:
             sites[g["chr"]].update(e)
+    # isoforms whose 3' end is A-rich in the genome itself (T-rich on the minus strand): reads that follow them
+    # exactly look as if they carried an aligned polyA tail
+    for g, t in S.transcripts_of(sc):
+        if src.bool(0.12):
+            n = src.int(45, 64)
+            rich = "".join("A" if (i % 6) else src.choice("CG") for i in range(n))
+            if g["strand"] == "+":
+                e = t["exons"][-1]
+                n = min(n, e[1] - e[0] - 5)
+                if n >= 41:
+                    sc["overrides"].append([g["chr"], e[1] - n, rich[:n]])
+                    sc.setdefault("arich", []).append([g["chr"], e[1] - n + 1, e[1], "+"])
+            else:
+                e = t["exons"][0]
+                n = min(n, e[1] - e[0] - 5)
+                if n >= 41:
+                    sc["overrides"].append([g["chr"], e[0] - 1, rich[:n].replace("A", "T")])
+                    sc.setdefault("arich", []).append([g["chr"], e[0], e[0] + n - 1, "-"])
     truth = {}
     k = 0
     lens = {c[0]: c[1] for c in sc["chroms"]}
@@ -215,6 +233,15 @@ def evaluate(case, ctx):
                 continue
             # class W
             T = tr["src"]
+            # root cause of a known finding: the last aligned bases of the read lie in an A-rich (T-rich) stretch of
+            # the genome and are taken for an aligned polyA tail
+            ar = ""
+            for c_, a_, b_, st_ in sc.get("arich", []):
+                if c_ != chrom:
+                    continue
+                blk = blocks[-1] if st_ == "+" else blocks[0]
+                if blk[0] <= b_ and blk[1] >= a_:
+                    ar = ":a-rich-genomic-3prime-end"
             n_pert = tr["jitter"] + tr["indels"] + int(tr["left_cut"]) + int(tr["right_cut"]) + int(tr["polya"])
             overlapping = [t for t in by_chr[chrom] if not (iso[t][1][-1][1] < blocks[0][0] or
                                                             iso[t][1][0][0] > blocks[-1][1])]
@@ -222,7 +249,8 @@ def evaluate(case, ctx):
                 ctx.mark_nontrivial(chash + name)
             if typ not in CONSISTENT:
                 ev = ",".join(sorted(set(e.split(":")[0] for r in rws for e in r["events"])))
-                ctx.violation("C01:within-tolerance-read-not-consistent:%s:%s" % (typ, strat),
+                ctx.violation("C01:read-ending-in-an-a-rich-genomic-stretch:not-consistent" if ar else
+                              "C01:within-tolerance-read-not-consistent:%s:%s" % (typ, strat),
                               {"read": name, "type": typ, "events": ev, "blocks": blocks, "T": T,
                                "T_exons": iso[T][1], "truth": {k: v for k, v in tr.items() if k != "blocks"},
                                "delta": delta}, case)
@@ -236,7 +264,8 @@ def evaluate(case, ctx):
                                        "isoform_exons": iso[t][1], "type": typ, "T": T}, case)
             full = not tr["left_cut"] and not tr["right_cut"]
             if full and T not in reported:
-                ctx.violation("C01:full-length-read-misses-its-isoform:" + strat,
+                ctx.violation("C01:read-ending-in-an-a-rich-genomic-stretch:misses-its-isoform" if ar else
+                              "C01:full-length-read-misses-its-isoform:" + strat,
                               {"read": name, "T": T, "reported": reported, "type": typ, "blocks": blocks,
                                "T_exons": iso[T][1], "others": {t: iso[t][1] for t in reported if t in iso},
                                "delta": delta}, case)
